@@ -397,6 +397,10 @@ func registerSyncStubs(w *World) {
 		return nil
 	}
 
+	S["reflect.DeepEqual"] = func(in *Interp, fn *ssa.Function, a []Value) Value {
+		return in.deepEqual(a[0], a[1], 0)
+	}
+
 	// ---- errors.As ----
 	S["errors.As"] = func(in *Interp, fn *ssa.Function, a []Value) Value {
 		err := in.force(a[0])
@@ -550,6 +554,110 @@ func registerSyncStubs(w *World) {
 		}
 		return SliceV{Arr: &ArrayV{Elems: vals, Org: in.org(), ET: types.Typ[types.Uint8]}, Len: len(vals), Cap: len(vals)}
 	}
+}
+
+// deepEqual models reflect.DeepEqual on the value shapes the library handles
+// (interfaces holding scalars, strings, []any, map[string]any, pointers).
+func (in *Interp) deepEqual(a, b Value, depth int) *Term {
+	if depth > 12 {
+		in.unsupported("reflect.DeepEqual: nesting too deep")
+	}
+	if la, ok := a.(*LazyV); ok {
+		a = in.force(la)
+	}
+	if lb, ok := b.(*LazyV); ok {
+		b = in.force(lb)
+	}
+	switch x := a.(type) {
+	case IfaceV:
+		y, ok := b.(IfaceV)
+		if !ok {
+			return False
+		}
+		if x.T == nil || y.T == nil {
+			return BoolC(x.T == nil && y.T == nil)
+		}
+		if !types.Identical(x.T, y.T) {
+			return False
+		}
+		return in.deepEqual(x.V, y.V, depth+1)
+	case SliceV:
+		y, ok := b.(SliceV)
+		if !ok {
+			return False
+		}
+		if (x.Arr == nil) != (y.Arr == nil) {
+			return False // a nil slice and an empty slice are not deeply equal
+		}
+		if x.Len != y.Len {
+			return False
+		}
+		if x.Arr != nil && (x.Arr.Abs != nil || y.Arr.Abs != nil) {
+			in.unsupported("reflect.DeepEqual on abstract text")
+		}
+		r := True
+		for i := 0; i < x.Len; i++ {
+			r = And(r, in.deepEqual(x.Arr.Elems[x.Off+i], y.Arr.Elems[y.Off+i], depth+1))
+		}
+		return r
+	case *MapV:
+		y, ok := b.(*MapV)
+		if !ok {
+			return False
+		}
+		if (x == nil) != (y == nil) {
+			return False
+		}
+		if x == nil {
+			return True
+		}
+		in.forceDeep(x)
+		in.forceDeep(y)
+		if len(x.Keys) != len(y.Keys) {
+			return False
+		}
+		r := True
+		for i, k := range x.Keys {
+			found := False
+			for j, k2 := range y.Keys {
+				found = Or(found, And(in.valueEqual(k, k2), in.deepEqual(x.Vals[i], y.Vals[j], depth+1)))
+			}
+			r = And(r, found)
+		}
+		return r
+	case PtrV:
+		y, ok := b.(PtrV)
+		if !ok {
+			return False
+		}
+		if x.R == nil || y.R == nil {
+			return BoolC(x.R == nil && y.R == nil)
+		}
+		if x.R == y.R {
+			return True
+		}
+		return in.deepEqual(x.R.Load(), y.R.Load(), depth+1)
+	case *StructV:
+		y, ok := b.(*StructV)
+		if !ok || len(x.Fields) != len(y.Fields) {
+			return False
+		}
+		r := True
+		for i := range x.Fields {
+			r = And(r, in.deepEqual(x.Fields[i], y.Fields[i], depth+1))
+		}
+		return r
+	case *FloatV:
+		y, ok := b.(*FloatV)
+		if !ok {
+			return False
+		}
+		if x.Cls == FNaN || y.Cls == FNaN {
+			return False
+		}
+		return in.valueEqual(x, y)
+	}
+	return in.valueEqual(a, b)
 }
 
 // nativeTypeMatches compares a %T rendering ("*json.UnsupportedValueError")
